@@ -91,6 +91,7 @@ NTR:
 
 from dawgie.pl.jobinfo import State
 
+import calendar
 import datetime
 import dawgie
 import dawgie.context
@@ -144,10 +145,20 @@ def _delay(when: dawgie.EVENT) -> datetime.timedelta:
             pass
 
         if when.moment.dom is not None:
-            nm = now.month + 1
+            # this month if the day is still to come (or is today), otherwise
+            # the next month that has such a day (31 -> skips short months)
+            year, month = now.year, now.month
+            if when.moment.dom < now.day:
+                month += 1
+            for _ in range(12):
+                if month == 13:
+                    year, month = year + 1, 1
+                if when.moment.dom <= calendar.monthrange(year, month)[1]:
+                    break
+                month += 1
             then = datetime.datetime(
-                year=now.year + (1 if nm == 13 else 0),
-                month=1 if nm == 13 else nm,
+                year=year,
+                month=month,
                 day=when.moment.dom,
                 hour=when.moment.time.hour,
                 minute=when.moment.time.minute,
